@@ -107,6 +107,10 @@ func init() {
 			req = []proto.Message{MkMsg(restIdemAlphabet[0])}
 		}
 		end := &wire.End{Code: code.code, CodeStr: code.str, Message: msg, Details: det}
+		if len(det) > 0 && tp != vanguard.ProtocolREST && c.Choose("base64-padding", 2) == 1 {
+			end.PadBase64 = true // (legal: readers of both protocols must accept padded base64)
+			c.Attr("~base64", "padded")
+		}
 		detailsDisagree := false
 		if (tp == vanguard.ProtocolGRPC || tp == vanguard.ProtocolGRPCWeb) && len(det) > 0 && code.code <= 16 {
 			// the google.rpc.Status inside grpc-status-details-bin names another code than grpc-status (0, or 3)
